@@ -132,6 +132,8 @@ namespace OpenMEEG {
 
     Matrix SymMatrix::solveLin(Matrix& RHS) const {
     om_assert(nlin()==RHS.nlin());
+        if (nlin()==0) // Empty system (LAPACKE rejects a zero leading dimension).
+            return RHS;
     #ifdef HAVE_LAPACK
         SymMatrix A(*this,DEEP_COPY);
         const BLAS_INT M = sizet_to_int(nlin());
